@@ -549,6 +549,12 @@ pub fn run_line(line: &str) -> String {
             let d = d[..k].to_vec();
             dispatch_spec!(*sp, run_file, queries, &d)
         }
+        ["sprefix", sp, ops, k, hexd] => {
+            let d = unhex(hexd);
+            let k = nat(k).min(d.len());
+            crate::stream::run_stream(sp, "-", ops, &d[..k]).reply
+        }
+        ["stream", sp, sched, ops, hexd] => crate::stream::run_stream(sp, sched, ops, &unhex(hexd)).reply,
         ["file", sp, queries, hexd] => {
             let d = unhex(hexd);
             dispatch_spec!(*sp, run_file, queries, &d)
